@@ -30,6 +30,8 @@ def gen_cases(tier, seed):
             for sh in range(8):
                 yield {'engine': 'sched', 'shape': n, 'copy': False, 'bound': 2, 'fine': False, 'shard': [sh, 8]}
         if tier == 'thorough':
+            for sh in range(64):   # three preemptions at line granularity
+                yield {'engine': 'sched', 'shape': n, 'copy': False, 'bound': 3, 'fine': False, 'shard': [sh, 64]}
             yield {'engine': 'sched', 'shape': n, 'copy': True, 'bound': 1, 'fine': True, 'shard': [0, 1]}
             for sh in range(16):
                 yield {'engine': 'sched', 'shape': n, 'copy': False, 'bound': 2, 'fine': True, 'shard': [sh, 16]}
@@ -48,7 +50,7 @@ def run_case(case):
 
     def run_one(prefix):
         return T.record_under(prog, prefix, fine=case['fine'])
-    ex = S.explore(run_one, case['bound'], max_execs=60000, shard=tuple(case['shard']))
+    ex = S.explore(run_one, case['bound'], max_execs=120000, shard=tuple(case['shard']))
     viols = []
     outcomes = set()
     for choices, res in ex['results']:
